@@ -56,6 +56,12 @@ class Violation:
 
     @property
     def key(self):
+        if self.rule == "TIME_BACKWARDS":
+            # two writers can be at fault: the line that was written too early (unbuffered container creation) or the line
+            # that comes too late (an event stamped in the past after the buffer was flushed)
+            if self.detail == "after=PajeCreateContainer":
+                return "TIME_BACKWARDS:after=PajeCreateContainer"
+            return "TIME_BACKWARDS:late=" + self.event
         return "%s:%s%s" % (self.rule, self.event, (":" + self.detail) if self.detail else "")
 
     def as_dict(self):
